@@ -423,12 +423,15 @@ def sweeps(tier, rng):
                     offs = []
                     for _s in range(rng.randint(3, 6)):
                         x += dx; y += dy
-                        if rng.chance(25): dx, dy = dy, -dx
+                        if rng.chance(15): dx, dy = dy, -dx
                         offs.append((x, y))
+                    forced = rng.randint(1, len(offs) - 2) if rng.chance(60) else -1     # an interior handle retracted onto its off-curve point
+                    if forced >= 0: allc = allc and rng.chance(30)
                     for j_, off in enumerate(offs):
                         if j_ + 1 < len(offs):
                             nxt = offs[j_ + 1]; on = ((off[0] + nxt[0]) / 2, (off[1] + nxt[1]) / 2)
-                            if rng.chance(30): on = nxt if rng.chance(50) else off          # retracted handle
+                            if j_ == forced: on = off
+                            elif rng.chance(30): on = nxt if rng.chance(50) else off          # retracted handle
                         else:
                             on = (off[0] + dx, off[1] + dy)
                         calls.append(("qCurveTo", (off, on)))
